@@ -4,7 +4,7 @@ from . import C03
 
 RULE = ("end to end: complete lifetimes of several key shapes walked signature by signature with lifetime queries in between (shared history "
         "driver with C03), the last signature's callback argument, and every operation on the wiped key; pure accounting: the counter hook "
-        "(real to()/increment()/get_lifetime()) over 1..8 levels of heights {5,10,15,20,25} with boundary and random counters")
+        "(real to()/increment()/get_lifetime()) over 1..8 levels of heights {5,10,15,20,25} with boundary and random counters; lifetime queries on real key blobs of 1..8 levels (parameter-byte decoding included)")
 ASSUMPTIONS = C03.ASSUMPTIONS + ["for tall shapes get_lifetime is exercised through a hook that builds the expanded key without generating trees"]
 
 
@@ -44,6 +44,25 @@ def run(ctx):
         exp_inc = "wiped" if cnt >= 2 ** 64 - 1 else str(cnt + 1)
         if "panic" in a or f.get("inc") != exp_inc:
             ctx.fail("a key taller than 64 bits does not end its lifetime cleanly at the last counter value", [c.line], a, "inc=%s, no panic" % exp_inc)
+    # lifetime queries on real key blobs of 1..8 levels (decoding of the eight parameter bytes included), cheap trees only
+    lcases = []
+    for L in range(1, 9):
+        for lms, otss in ((1, (3, 4)), (5, (2, 3))):
+            if lms == 5 and ctx.tier == "quick" and L not in (1, 2, 7, 8):
+                continue
+            H = ALL_H[(L + lms) % 6]
+            ps = [(rng.choice(otss), lms) for _ in range(L)]
+            hs = heights_of(ps)
+            N = 1 << sum(hs)
+            seed = rng.bytes_(HASHES[H])
+            cs = boundary_counters(hs, rng, 1)
+            cs = sorted(set([0, 1 % N, N - 1] + rng.sample(cs, min(len(cs), 2 if ctx.tier == "quick" else 8))))
+            for cnt in cs:
+                lcases.append(Case(lifetime_line(H, sk_blob(H, ps, seed, cnt)), "lifetime-blob/L%d/%s" % (L, "h5" if lms == 5 else "h2"), {"N": N, "c": cnt}))
+    for c, a, b in ctx.both(lcases, None):
+        exp = "ok %d" % (c.meta["N"] - c.meta["c"])
+        if a != exp:
+            ctx.fail("reported remaining lifetime is not (number of leaves - released signatures)", [c.line], a, exp)
     # the wiped key
     cases = []
     for H in ALL_H:
